@@ -1,4 +1,5 @@
 import PenneModel.Lex.Lemmas
+import PenneModel.Lex.Lexemes
 /-
   C14 — both lexers implement the same lexical grammar, with exact spans.  Property theorems about the
   reference lexer model (`Lex/Model.lean`), which the correspondence run compares with both real lexers.
@@ -134,6 +135,131 @@ theorem lexStep_hex_overflow (ln col off : Nat) (ds cs tail : List Char) (h : Wi
   simp only [Bool.false_eq_true, if_false, if_true, e]
   exact ⟨_, _, rfl⟩
 
+/-! ### The statement as a whole: any sequence of tokens in any legal spelling
+
+`Lexeme s t` (Lex/Sequence.lean): the spelling `s`, followed by the end of the line or a blank, is cut off as exactly `t`
+spanning exactly `s`.  Every spelling of the integer literals is a lexeme (below), and so are identifiers, builtins,
+keywords / type names / `true` / `false` / `_`, punctuation and plain string / character literals (Lex/Lexemes.lean). -/
+
+theorem lexemeP_decimal (c : Char) (ds cs : List Char) (hc : c ∈ ['1','2','3','4','5','6','7','8','9']) (h : WithSep ds cs)
+    (hds : ∀ d ∈ ds, isDigit d = true) (hv : valueOf 10 (c :: ds) < max128) :
+    LexemeP Stops (c :: cs) (.dec (valueOf 10 (c :: ds))) := by
+  refine ⟨by simp, ?_⟩
+  intro ln col off tail ht
+  rw [List.cons_append, lexStep_decimal ln col off c ds cs tail hc h hds ht hv]
+  simp [Nat.add_comm]
+
+theorem lexeme_decimal (c : Char) (ds cs : List Char) (hc : c ∈ ['1','2','3','4','5','6','7','8','9']) (h : WithSep ds cs)
+    (hds : ∀ d ∈ ds, isDigit d = true) (hv : valueOf 10 (c :: ds) < max128) :
+    Lexeme (c :: cs) (.dec (valueOf 10 (c :: ds))) :=
+  (lexemeP_decimal c ds cs hc h hds hv).weaken (fun _ ht => ht.stops)
+
+theorem lexemeP_decimal_suffix (c : Char) (ds cs sfx : List Char) (t : Ty) (hc : c ∈ ['1','2','3','4','5','6','7','8','9'])
+    (h : WithSep ds cs) (hds : ∀ d ∈ ds, isDigit d = true) (hs : (sfx, t) ∈ suffixes) (hv : valueOf 10 (c :: ds) < max128) :
+    LexemeP Stops (c :: (cs ++ sfx)) (.suf (valueOf 10 (c :: ds)) t) := by
+  refine ⟨by simp, ?_⟩
+  intro ln col off tail ht
+  rw [List.cons_append, List.append_assoc, lexStep_decimal_suffix ln col off c ds cs sfx tail t hc h hds hs ht hv]
+  simp [Nat.add_comm]
+
+theorem lexeme_decimal_suffix (c : Char) (ds cs sfx : List Char) (t : Ty) (hc : c ∈ ['1','2','3','4','5','6','7','8','9'])
+    (h : WithSep ds cs) (hds : ∀ d ∈ ds, isDigit d = true) (hs : (sfx, t) ∈ suffixes) (hv : valueOf 10 (c :: ds) < max128) :
+    Lexeme (c :: (cs ++ sfx)) (.suf (valueOf 10 (c :: ds)) t) :=
+  (lexemeP_decimal_suffix c ds cs sfx t hc h hds hs hv).weaken (fun _ ht => ht.stops)
+
+theorem lexeme_zero : Lexeme ['0'] (.dec 0) := by
+  refine ⟨by simp, ?_⟩
+  intro ln col off tail ht
+  cases tail with
+  | nil => rfl
+  | cons c rest => rcases blank_cases c (ht c rfl) with rfl | rfl <;> rfl
+
+/-- `0` followed by anything that is not `x`, `b` or an identifier character -/
+theorem lexemeP_zero : LexemeP Stops ['0'] (.dec 0) := by
+  refine ⟨by simp, ?_⟩
+  intro ln col off tail ht
+  obtain ⟨h1, h2, h3, h4, h5⟩ := zero_facts
+  have hsp : spanIdent tail = ([], tail) := by simpa using spanIdent_append [] tail (by simp) ht
+  simp only [List.cons_append, List.nil_append]
+  unfold lexStep
+  simp only [h1, h2, h3, h4, h5, Bool.false_eq_true, if_false, if_true, Bool.false_and]
+  cases tail with
+  | nil => rfl
+  | cons c rest =>
+    have hc : isIdentCont c = false := ht c rfl
+    have hx : c ≠ 'x' := fun he => by subst he; exact absurd hc (by decide)
+    have hb : c ≠ 'b' := fun he => by subst he; exact absurd hc (by decide)
+    simp [lexNumberZero, hx, hb, hsp]
+
+theorem lexemeP_hex (ds cs : List Char) (h : WithSep ds cs) (hne : ds ≠ []) (hds : ∀ d ∈ ds, isHex d = true)
+    (hv : valueOf 16 ds < max128) :
+    LexemeP Stops ('0' :: 'x' :: cs) (.bit (valueOf 16 ds)) := by
+  refine ⟨by simp, ?_⟩
+  intro ln col off tail ht
+  rw [List.cons_append, List.cons_append, lexStep_hex ln col off ds cs tail h hne hds ht hv]
+  simp [Nat.add_comm]
+
+theorem lexeme_hex (ds cs : List Char) (h : WithSep ds cs) (hne : ds ≠ []) (hds : ∀ d ∈ ds, isHex d = true)
+    (hv : valueOf 16 ds < max128) :
+    Lexeme ('0' :: 'x' :: cs) (.bit (valueOf 16 ds)) :=
+  (lexemeP_hex ds cs h hne hds hv).weaken (fun _ ht => ht.stops)
+
+theorem lexemeP_bin (ds cs : List Char) (h : WithSep ds cs) (hne : ds ≠ []) (hds : ∀ d ∈ ds, isBin d = true)
+    (hv : valueOf 2 ds < max128) :
+    LexemeP Stops ('0' :: 'b' :: cs) (.bit (valueOf 2 ds)) := by
+  refine ⟨by simp, ?_⟩
+  intro ln col off tail ht
+  rw [List.cons_append, List.cons_append, lexStep_bin ln col off ds cs tail h hne hds ht hv]
+  simp [Nat.add_comm]
+
+theorem lexeme_bin (ds cs : List Char) (h : WithSep ds cs) (hne : ds ≠ []) (hds : ∀ d ∈ ds, isBin d = true)
+    (hv : valueOf 2 ds < max128) :
+    Lexeme ('0' :: 'b' :: cs) (.bit (valueOf 2 ds)) :=
+  (lexemeP_bin ds cs h hne hds hv).weaken (fun _ ht => ht.stops)
+
+theorem lexemeP_hex_suffix (ds cs sfx : List Char) (t : Ty) (h : WithSep ds cs) (hne : ds ≠ []) (hds : ∀ d ∈ ds, isHex d = true)
+    (hs : (sfx, t) ∈ suffixes) (hv : valueOf 16 ds < max128) :
+    LexemeP Stops ('0' :: 'x' :: (cs ++ sfx)) (.suf (valueOf 16 ds) t) := by
+  refine ⟨by simp, ?_⟩
+  intro ln col off tail ht
+  rw [List.cons_append, List.cons_append, List.append_assoc, lexStep_hex_suffix ln col off ds cs sfx tail t h hne hds hs ht hv]
+  simp [Nat.add_comm, Nat.add_left_comm]
+  try omega
+
+theorem lexeme_hex_suffix (ds cs sfx : List Char) (t : Ty) (h : WithSep ds cs) (hne : ds ≠ []) (hds : ∀ d ∈ ds, isHex d = true)
+    (hs : (sfx, t) ∈ suffixes) (hv : valueOf 16 ds < max128) :
+    Lexeme ('0' :: 'x' :: (cs ++ sfx)) (.suf (valueOf 16 ds) t) :=
+  (lexemeP_hex_suffix ds cs sfx t h hne hds hs hv).weaken (fun _ ht => ht.stops)
+
+theorem lexemeP_bin_suffix (ds cs sfx : List Char) (t : Ty) (h : WithSep ds cs) (hne : ds ≠ []) (hds : ∀ d ∈ ds, isBin d = true)
+    (hs : (sfx, t) ∈ suffixes) (hv : valueOf 2 ds < max128) :
+    LexemeP Stops ('0' :: 'b' :: (cs ++ sfx)) (.suf (valueOf 2 ds) t) := by
+  refine ⟨by simp, ?_⟩
+  intro ln col off tail ht
+  rw [List.cons_append, List.cons_append, List.append_assoc, lexStep_bin_suffix ln col off ds cs sfx tail t h hne hds hs ht hv]
+  simp [Nat.add_comm, Nat.add_left_comm]
+  try omega
+
+theorem lexeme_bin_suffix (ds cs sfx : List Char) (t : Ty) (h : WithSep ds cs) (hne : ds ≠ []) (hds : ∀ d ∈ ds, isBin d = true)
+    (hs : (sfx, t) ∈ suffixes) (hv : valueOf 2 ds < max128) :
+    Lexeme ('0' :: 'b' :: (cs ++ sfx)) (.suf (valueOf 2 ds) t) :=
+  (lexemeP_bin_suffix ds cs sfx t h hne hds hs hv).weaken (fun _ ht => ht.stops)
+
+/-- **C14, one line**: a line made of tokens in any legal spellings (`Good`: each item a `Lexeme`), indented by any blanks,
+    separated by any non-empty runs of blanks and optionally ended by a `//` comment, is split into exactly those tokens, each
+    spanning exactly its characters, at the right column and source offset -/
+theorem lex_line_of_tokens (ln off : Nat) (indent : List Char) (items : List Item) (trailer : List Char)
+    (htr : IsTrailer trailer) (hi : ∀ c ∈ indent, isBlank c = true) (hg : Good trailer items) :
+    lexLine ln off (indent ++ (render items ++ trailer)) = expected ln indent.length (off + indent.length) items :=
+  lexLine_sequence ln off indent items trailer htr hi hg
+
+/-- **C14, a whole source**: any number of lines (ended by `\n` or `\r\n`), each made of tokens in legal spellings with any
+    indentation and any non-empty blanks between them and an optional `//` comment: the lexer yields exactly those tokens, on
+    the right lines, each spanning exactly its characters (byte offsets into the source) -/
+theorem lex_source_of_tokens (ls : List LineSpec) (hne : ls ≠ []) (h : ∀ l ∈ ls, l.OK) :
+    lex (sourceOf ls) = expectedLines 1 0 ls :=
+  lex_source ls hne h
+
 /-! ### Non-vacuity: the hypotheses are met by non-trivial spellings -/
 
 example : lexStep 3 7 40 "1_000_u16;".toList =
@@ -142,5 +268,83 @@ example : lexStep 1 0 0 "0xdead_BEEF ".toList =
     some ([{ tok := .bit 3735928559, start := 0, stop := 11, line := 1, col := 0 }], [' ']) := by decide +kernel
 example : WithSep "1000".toList "1_0__00".toList := by
   repeat (first | exact .nil | apply WithSep.digit | apply WithSep.sep)
+
+/-- a concrete two-line source meeting the hypotheses of `lex_source_of_tokens`: `\tvar x_1 = 0x1F_u8 + 1_000 ; // c\r\n"a b" 'c' print! 0\n` -/
+def sampleLines : List LineSpec := [
+  { indent := ['\t'], crlf := true, trailer := "// c".toList, items := [
+      { spelling := "var".toList, tok := .kw "var".toList, blanks := [' '] },
+      { spelling := "x_1".toList, tok := .ident "x_1".toList, blanks := [' ', ' '] },
+      { spelling := ['='], tok := .sym ['='], blanks := [' '] },
+      { spelling := "0x1F_u8".toList, tok := .suf 31 .u8, blanks := ['\t'] },
+      { spelling := ['+'], tok := .sym ['+'], blanks := [' '] },
+      { spelling := "1_000".toList, tok := .dec 1000, blanks := [' '] },
+      { spelling := [';'], tok := .sym [';'], blanks := [' '] }] },
+  { indent := [], crlf := false, trailer := [], items := [
+      { spelling := "\"a b\"".toList, tok := .str [97, 32, 98], blanks := [' '] },
+      { spelling := "'c'".toList, tok := .chr 99, blanks := [' '] },
+      { spelling := "print!".toList, tok := .builtin "print".toList, blanks := [' '] },
+      { spelling := ['0'], tok := .dec 0, blanks := [] }] }]
+
+example : sourceOf sampleLines = "\tvar x_1  = 0x1F_u8\t+ 1_000 ; // c\r\n\"a b\" 'c' print! 0\n".toList := by decide +kernel
+
+example : ∀ l ∈ sampleLines, l.OK := by
+  have wsd : ∀ (ds : List Char), WithSep ds ds := by
+    intro ds; induction ds with
+    | nil => exact .nil
+    | cons d ds ih => exact .digit d ih
+  intro l hl
+  simp only [sampleLines, List.mem_cons, List.mem_nil_iff, or_false] at hl
+  rcases hl with rfl | rfl
+  · refine ⟨Or.inr ⟨" c".toList, by decide⟩, by decide, ?_, by decide +kernel, by intro h; cases h⟩
+    refine ⟨lexeme_keyword _ _ (by decide), by decide, (by first | exact blankStart_cons _ _ (by decide) | exact blankStart_nil), ?_⟩
+    refine ⟨lexeme_ident 'x' "_1".toList (by decide) (by decide) (by decide), by decide, (by first | exact blankStart_cons _ _ (by decide) | exact blankStart_nil), ?_⟩
+    refine ⟨lexeme_symbol _ _ (by decide), by decide, (by first | exact blankStart_cons _ _ (by decide) | exact blankStart_nil), ?_⟩
+    refine ⟨lexeme_hex_suffix "1F".toList "1F_".toList "u8".toList .u8 (.digit _ (.digit _ (.sep .nil))) (by decide) (by decide) (by decide) (by decide),
+      by decide, (by first | exact blankStart_cons _ _ (by decide) | exact blankStart_nil), ?_⟩
+    refine ⟨lexeme_symbol _ _ (by decide), by decide, (by first | exact blankStart_cons _ _ (by decide) | exact blankStart_nil), ?_⟩
+    refine ⟨lexeme_decimal '1' "000".toList "_000".toList (by decide) (.sep (wsd _)) (by decide) (by decide), by decide, (by first | exact blankStart_cons _ _ (by decide) | exact blankStart_nil), ?_⟩
+    exact ⟨lexeme_symbol _ _ (by decide), by decide, (by first | exact blankStart_cons _ _ (by decide) | exact blankStart_nil), trivial⟩
+  · refine ⟨Or.inl rfl, by decide, ?_, by decide +kernel, by decide +kernel⟩
+    refine ⟨lexeme_string "a b".toList (by decide), by decide, (by first | exact blankStart_cons _ _ (by decide) | exact blankStart_nil), ?_⟩
+    refine ⟨lexeme_char 'c' (by decide), by decide, (by first | exact blankStart_cons _ _ (by decide) | exact blankStart_nil), ?_⟩
+    refine ⟨lexeme_builtin 'p' "rint".toList (by decide) (by decide) (by decide), by decide, (by first | exact blankStart_cons _ _ (by decide) | exact blankStart_nil), ?_⟩
+    exact ⟨lexeme_zero, by decide, (by first | exact blankStart_cons _ _ (by decide) | exact blankStart_nil), trivial⟩
+
+/-! tokens need not be separated by blanks: each spelling only constrains what follows it (`Item.after`) -/
+
+theorem stops_cons (c : Char) (rest : List Char) (h : isIdentCont c = false) : Stops (c :: rest) := by
+  intro c' h'; simp only [List.head?_cons, Option.some.injEq] at h'; subst h'; exact h
+theorem afterIdent_cons (c : Char) (rest : List Char) (h : isIdentCont c = false) (hb : c ≠ '!') : AfterIdent (c :: rest) :=
+  ⟨stops_cons c rest h, fun r he => hb (by injection he)⟩
+theorem noGlue_cons (a c : Char) (rest : List Char) (h : sym2 a c = none) (hn : ¬(a = '/' ∧ c = '/')) : NoGlue a (c :: rest) := by
+  intro y hy; simp only [List.head?_cons, Option.some.injEq] at hy; subst hy; exact ⟨h, hn⟩
+
+/-- `f(x_1,0x1F)!=12;//c` : no blank anywhere -/
+def denseLine : LineSpec :=
+  { indent := [], crlf := false, trailer := "//c".toList, items := [
+      { spelling := ['f'], tok := .ident ['f'], blanks := [], after := AfterIdent },
+      { spelling := ['('], tok := .sym ['('], blanks := [], after := NoGlue '(' },
+      { spelling := "x_1".toList, tok := .ident "x_1".toList, blanks := [], after := AfterIdent },
+      { spelling := [','], tok := .sym [','], blanks := [], after := NoGlue ',' },
+      { spelling := "0x1F".toList, tok := .bit 31, blanks := [], after := Stops },
+      { spelling := [')'], tok := .sym [')'], blanks := [], after := NoGlue ')' },
+      { spelling := ['!', '='], tok := .sym ['!', '='], blanks := [], after := AfterAny },
+      { spelling := "12".toList, tok := .dec 12, blanks := [], after := Stops },
+      { spelling := [';'], tok := .sym [';'], blanks := [], after := NoGlue ';' }] }
+
+example : denseLine.text = "f(x_1,0x1F)!=12;//c".toList := by decide +kernel
+
+example : denseLine.OK := by
+  refine ⟨Or.inr ⟨['c'], by decide⟩, by decide, ?_, by decide +kernel, by decide +kernel⟩
+  refine ⟨lexemeP_ident 'f' [] (by decide) (by decide) (by decide), by decide, afterIdent_cons _ _ (by decide) (by decide), ?_⟩
+  refine ⟨lexemeP_sym1 '(' (by decide), by decide, noGlue_cons _ _ _ (by decide) (by decide), ?_⟩
+  refine ⟨lexemeP_ident 'x' "_1".toList (by decide) (by decide) (by decide), by decide, afterIdent_cons _ _ (by decide) (by decide), ?_⟩
+  refine ⟨lexemeP_sym1 ',' (by decide), by decide, noGlue_cons _ _ _ (by decide) (by decide), ?_⟩
+  refine ⟨lexemeP_hex "1F".toList "1F".toList (.digit _ (.digit _ .nil)) (by decide) (by decide) (by decide), by decide,
+    stops_cons _ _ (by decide), ?_⟩
+  refine ⟨lexemeP_sym1 ')' (by decide), by decide, noGlue_cons _ _ _ (by decide) (by decide), ?_⟩
+  refine ⟨lexemeP_sym2 _ _ (by decide), by decide, trivial, ?_⟩
+  refine ⟨lexemeP_decimal '1' ['2'] ['2'] (by decide) (.digit _ .nil) (by decide) (by decide), by decide, stops_cons _ _ (by decide), ?_⟩
+  exact ⟨lexemeP_sym1 ';' (by decide), by decide, noGlue_cons _ _ _ (by decide) (by decide), trivial⟩
 
 end Lex
